@@ -47,6 +47,7 @@ static int64_t nv_size(const struct nv_dims* dims) { return dims->d[0]; }
 #define NV_SIZE(b) ((b).m_dims.d[0])
 #define NV_DIMS_EQ(a, b) ((a).m_dims.d[0] == (b).m_dims.d[0])
 #define NV_DIMS_OK(b) (0 <= (b).m_dims.d[0] && (b).m_dims.d[0] <= NV_MAXN)
+static _Bool nv_dims_eq(const struct nv_dims* a, const struct nv_dims* b) { return a->d[0] == b->d[0]; }     /* operator== on tensor_dims_t */
 #endif
 
 /* ------------------------------------------------------------------ Eigen (assumed contracts, see the header comment) */
@@ -197,8 +198,11 @@ __CPROVER_assigns(__CPROVER_object_whole(self), NV_O->m_data) \
 __CPROVER_ensures(__CPROVER_return_value == self) \
 __CPROVER_ensures(NV_OWNS(self, NV_O->base) && NV_GHOST_NEW(self->m_data.p, self->m_data.n))
 
-/* resize: the new dims, size() coefficients of live memory; an unchanged size keeps block and contents */
-#define NV_RESIZE(newn) __CPROVER_requires(__CPROVER_is_fresh(self, sizeof(*self)) && NV_VS_OK(self) && 0 <= (newn) && (newn) <= NV_MAXN) \
+/* resize: the new dims, size() coefficients of live memory; an unchanged size keeps block and contents.  The precondition does
+ * NOT assume the storage invariant m_data.size() == size(): a moved-from owning storage keeps its dims while its vector was
+ * moved away (or swapped), and resize() is what re-establishes the invariant -- from ANY valid vector */
+#define NV_VS_ANY(s) (NV_DIMS_OK((s)->base) && 0 <= (s)->m_data.n && (s)->m_data.n <= NV_MAXN && __CPROVER_is_fresh((s)->m_data.p, NV_BYTES((s)->m_data.n)))
+#define NV_RESIZE(newn) __CPROVER_requires(__CPROVER_is_fresh(self, sizeof(*self)) && NV_VS_ANY(self) && 0 <= (newn) && (newn) <= NV_MAXN) \
 __CPROVER_requires(NV_GHOST_OLD(self->m_data.p, self->m_data.n)) \
 __CPROVER_assigns(__CPROVER_object_whole(self), __CPROVER_object_whole(self->m_data.p)) __CPROVER_frees(self->m_data.p) \
 __CPROVER_ensures(self->base.m_dims.d[0] == (newn) && NV_OWNS(self, self->base)) \
